@@ -504,6 +504,10 @@ func init() {
 			for _, fsType := range []string{"MemFS", "OrefaFS"} {
 				trees := c06Trees(fsType)
 				calls := c06Calls(fsType)
+				// queries take locks too (directory, then its entries): they belong to the lock-order programs
+				for _, p := range []string{"/w", "/w/d", "/w/a", "/w/b", "/w/d/a"} {
+					calls = append(calls, fsx.Op{K: "ReadDir", P: p}, fsx.Op{K: "Stat", P: p}, fsx.Op{K: "ReadFile", P: p}, fsx.Op{K: "WalkDir", P: p}, fsx.Op{K: "Lstat", P: p})
+				}
 				lockOrder := [][][]fsx.Op{
 					{{{K: "Rename", P: "/w/a", Q: "/w/d/a"}}, {{K: "Rename", P: "/w/d/a", Q: "/w/a"}}},
 					{{{K: "Rename", P: "/w/b", Q: "/w/d/x"}}, {{K: "Rename", P: "/w/d/a", Q: "/w/y"}}},
@@ -514,6 +518,10 @@ func init() {
 					{{{K: "OpenWriteClose", P: "/w/b", Flag: 0x241, Data: "zz", Perm: 0o644}}, {{K: "Truncate", P: "/w/b", N: 1}}, {{K: "Rename", P: "/w/b", Q: "/w/d/b"}}},
 					{{{K: "RemoveAll", P: "/w"}}, {{K: "MkdirAll", P: "/w/d/x/y", Perm: 0o755}}, {{K: "Rename", P: "/w/d", Q: "/w/e"}}},
 					{{{K: "ReadDir", P: "/w"}, {K: "Stat", P: "/w/d/a"}}, {{K: "Rename", P: "/w/d/a", Q: "/w/a"}}, {{K: "RemoveAll", P: "/w/d"}}},
+					{{{K: "ReadDir", P: "/w"}}, {{K: "Rename", P: "/w/b", Q: "/w/d/x"}}},
+					{{{K: "ReadDir", P: "/w/d"}}, {{K: "Link", P: "/w/d/a", Q: "/w/d/y"}}, {{K: "ReadDir", P: "/w"}}},
+					{{{K: "ReadDir", P: "/w"}}, {{K: "Link", P: "/w/b", Q: "/w/y"}}},
+					{{{K: "WalkDir", P: "/w"}}, {{K: "Rename", P: "/w/d", Q: "/w/a/d"}}, {{K: "RemoveAll", P: "/w/a"}}},
 				}
 				for ti, tree := range trees {
 					for _, progs := range lockOrder {
